@@ -228,8 +228,9 @@ TWIN_FAMILIES = {
     "ld": ["ld", "ld_pb"],
     "frag": ["frag", "frag2"],
     "names": ["tw 4:4:4", "tw 4_4_4", "tw 4.4.4"],
+    "basefmt": ["w176", "after_w176"],
 }
-TWIN_QUICK = [["minimal", "qm", "names"], ["lossless", "ld", "frag", "fields"]]
+TWIN_QUICK = [["minimal", "qm", "names", "basefmt"], ["lossless", "ld", "frag", "fields"]]
 
 
 def fresh_python_start(args, hash_seed):
